@@ -77,6 +77,10 @@ func idApply(vals []idVal, op idOp) ([]idVal, error) {
 			return nil, err
 		}
 		return append(vals, idVal{isSet: true, s: a.s.Union(b.s)}), nil
+	case "EmptyIntSet":
+		return append(vals, idVal{isSet: true, s: data.EmptyIntSet}), nil
+	case "EmptyIntMap":
+		return append(vals, idVal{m: data.EmptyIntMap}), nil
 	case "NewIntMap":
 		m := map[int]int{}
 		for i := 0; i+1 < len(op.Args); i += 2 {
@@ -222,6 +226,8 @@ func intdataMain(mode string, a args) {
 			for k := 0; k < nops; k++ {
 				var op idOp
 				switch x := r.Intn(10); {
+				case (x < 2 || len(vals) == 0) && r.Intn(6) == 0:
+					op = idOp{Op: []string{"EmptyIntSet", "EmptyIntMap"}[r.Intn(2)]} // the package-level values
 				case x < 2 || len(vals) == 0:
 					l := r.Intn(5)
 					as := make([]int, l)
